@@ -8,7 +8,7 @@ must equal those of SOME one-at-a-time execution that respects real-time order â
 every candidate order through the sequential Lean hub model (`serve`), i.e. a linearizability check
 against the model.  C10 adds kills of a server at a random step and Puts with wrong hash / short content.
 """
-import itertools, os, re, select, signal, struct, subprocess, time
+import itertools, os, re, select, shutil, signal, struct, subprocess, time
 from bbox import Sandbox, Rng, blake3_hex, hexs, CLI_BIN
 import bb_hub as H
 import bb_gate as G
@@ -289,6 +289,49 @@ def transient_write_error_section(rng, res, count):
             res["violations"].append(("acknowledged-put-not-stored", f"with write #{k} failing once, the Put was acknowledged as committed although big.bin does not hold its bytes", rep))
 
 
+def other_filesystem_section(rng, res, count):
+    """C10 on a hub that spans two file systems: `ROOT/vol` is a symlink to a directory on another file system (/dev/shm). A Put into
+    `vol/` is killed before the k-th call of each kind it makes; after every kill the visible path `vol/data.bin` holds its old
+    bytes or the complete verified upload â€” wherever the server stages, a commit is one atomic step on the destination's own file
+    system (seed C10-O: staging under `ROOT/.copia/`, and an `fs::copy` straight onto the visible path when the rename reported a
+    cross-device error). Skipped (counted) when /dev/shm is not a separate writable file system."""
+    import subprocess, tempfile
+    if not os.path.isdir("/dev/shm") or not os.access("/dev/shm", os.W_OK) or os.stat("/dev/shm").st_dev == os.stat("/var/tmp").st_dev:
+        count("other-filesystem/skipped")
+        return
+    old = bytes(rng.bytes(50_000)); new = bytes(rng.bytes(300_000))
+    hn, ho = (bytes.fromhex(x) for x in blake3_hex([new, old]))
+    vol = tempfile.mkdtemp(prefix="copia-vol-", dir="/dev/shm")
+    try:
+        n = 0
+        for sc in ("openat", "write", "rename", "copy_file_range", "sendfile", "fsync", "unlink", "mkdir", "flock"):
+            for k in range(1, 40):
+                with Sandbox("C10") as sb:
+                    root = sb.path("hub"); sb.write_tree(root, {"keep.txt": b"kept"}); os.makedirs(os.path.join(root, ".copia"), exist_ok=True)
+                    for fn in os.listdir(vol):
+                        os.remove(os.path.join(vol, fn))
+                    open(os.path.join(vol, "data.bin"), "wb").write(old)
+                    os.symlink(vol, os.path.join(root, "vol"))
+                    stream = H.MAGIC + H.frame(H.req_hello()) + H.frame(H.req_put("vol/data.bin", ho, len(new), hn)) + new + H.frame(H.req_bye())
+                    cmd = ["strace", "-f", "-qq", "-o", "/dev/null", "-e", f"trace={sc}", "-e", f"inject={sc}:signal=SIGKILL:when={k}", CLI_BIN, "serve", root]
+                    try:
+                        r = subprocess.run(cmd, input=stream, env=sb.env, cwd=sb.dir, stdout=subprocess.PIPE, stderr=subprocess.PIPE, timeout=60)
+                        rc = r.returncode
+                    except subprocess.TimeoutExpired:
+                        rc = "timeout"
+                    got = open(os.path.join(vol, "data.bin"), "rb").read() if os.path.exists(os.path.join(vol, "data.bin")) else None
+                if rc == 0:
+                    break                         # not killed: fewer than k such calls
+                n += 1
+                count(f"other-filesystem/killed-before-{sc}")
+                if got not in (old, new):
+                    res["violations"].append(("partial-or-mixed-content-visible", f"hub subtree on another file system, server killed before {sc} #{k}: vol/data.bin holds {None if got is None else len(got)} bytes that are neither its old content ({len(old)}) nor the complete upload ({len(new)})",
+                                              {"kill": f"{sc} #{k}", "rc": rc, "visible_bytes": None if got is None else len(got)}))
+        return n
+    finally:
+        shutil.rmtree(vol, ignore_errors=True)
+
+
 def lock_window_section(rng, res, count):
     """C03: the window between a server's compare (under the commit lock) and its rename, held open by delaying that server's
     `flock` and `rename` (strace delay injection on server 1 only). f = X. Client 1 sends Put f {expected: None, A} (stale: f
@@ -413,6 +456,7 @@ def run(pid, tier, seed, rundir, model_run):
     if pid == "C10":
         write_error_section(rng, res, count)
         transient_write_error_section(rng, res, count)
+        other_filesystem_section(rng, res, count)
         hasher_scope_section(rng, res, count)
         refused_put_below_file_section(rng, res, count)
     ncases = 70 * (12 if tier == "thorough" else 1)
